@@ -15,6 +15,8 @@ Clauses
                        write, each followed by a newline (exactly once, in order, complete); no exception
   c19.lines_styled     flush-free histories: per character the same attributes / colours / link as the
                        written stream means on a terminal (SGR state carried across lines)
+  c19.lines_styled_across_flush  histories with flushes that do not cut an escape sequence: the same, comparing the
+                       non-newline characters (a flush may end the physical line; the styling in force carries on)
   c19.flush_verbatim   per flush(): the visible text emitted == the pending partial line (a trailing newline
                        is accepted), nothing when nothing is pending; no exception
   c19.undecodable_line a line holding a CSI sequence with a non-ASCII digit must not lose lines / raise
@@ -34,7 +36,7 @@ from . import c03
 MAX_FAIL = 3
 CLAUSES = (
     "c19.roundtrip_chars", "c19.roundtrip_attrs", "c19.roundtrip_colors", "c19.roundtrip_links",
-    "c19.lines_once", "c19.lines_styled", "c19.flush_verbatim", "c19.undecodable_line", "c19.live_redirect",
+    "c19.lines_once", "c19.lines_styled", "c19.lines_styled_across_flush", "c19.flush_verbatim", "c19.undecodable_line", "c19.live_redirect",
 )
 
 # ------------------------------------------------------------------------------------------ (i) round trip
@@ -208,6 +210,7 @@ SGR_LINES = (
     "\x1b[3mopen",          # not closed: the state carries to the next line
     "\x1b[0mafter",
     "\x1b]8;;http://x\x1b\\link\x1b]8;;\x1b\\ z",
+    "\x1b]8;id=7;http://h/m;lat=5;lon=4/v?i=1;2\x1b\\semi\x1b]8;;\x1b\\ z",   # the URI itself contains ';' (only the first ends the params)
     "a\x1b[mb",
     "\x1b[4;21;53;9mu\x1b[24mv\x1b[0m",
     "\x1b[97;100mB\x1b[39mC\x1b[49mD",
@@ -324,6 +327,7 @@ def proxy_evaluate(ops, via="direct"):
     evaluated = []
     all_lines = []
     effective_flush = False
+    flushed_clean = True
     mark = 0
     for k, op in enumerate(ops):
         if op[0] == "w":
@@ -364,6 +368,7 @@ def proxy_evaluate(ops, via="direct"):
             delta, mark = value[mark:], len(value)
             if was:
                 effective_flush = True
+                flushed_clean = flushed_clean and _clean(was)
             if _clean(was):
                 evaluated.append("c19.flush_verbatim")
                 want = _sgr.strip(was)
@@ -380,6 +385,20 @@ def proxy_evaluate(ops, via="direct"):
         if want != got:
             idx = next((i for i, (a, b) in enumerate(zip(want, got)) if a != b), min(len(want), len(got)))
             fails.append(("c19.lines_styled", "styling differs at visible character %d" % idx,
+                          c03._jsonable(want[idx]) if idx < len(want) else None,
+                          c03._jsonable(got[idx]) if idx < len(got) else None))
+    if effective_flush and flushed_clean and all(_clean(line) for line in all_lines):
+        # the written stream, with whatever is still pending dropped, means the same characters with the same styling;
+        # where the physical lines end is up to the flushes
+        evaluated.append("c19.lines_styled_across_flush")
+        written = "".join(op[1] for op in ops if op[0] == "w")
+        if pending:
+            written = written[: len(written) - len(pending)]
+        want = [c for c in _cell_view(_sgr.interpret(written).cells) if c[0] != "\n"]
+        got = [c for c in _cell_view(_sgr.interpret(file.getvalue()).cells) if c[0] != "\n"]
+        if want != got:
+            idx = next((i for i, (a, b) in enumerate(zip(want, got)) if a != b), min(len(want), len(got)))
+            fails.append(("c19.lines_styled_across_flush", "styling differs at visible non-newline character %d" % idx,
                           c03._jsonable(want[idx]) if idx < len(want) else None,
                           c03._jsonable(got[idx]) if idx < len(got) else None))
     return evaluated, fails
